@@ -65,9 +65,11 @@ pub const TEMPLATES: &[&str] = &[
     /* 29 */ "[1, 2] via (a => a * 2)",
     /* 30 */ "b = do {\n  a = 8\n  return a + 1\n}",
     /* 31 */ "t",
+    /* 32 */ "(() => (a = 4))()",
+    /* 33 */ "[() => (b = 6) + 1][0]()",
 ];
 
-const CORE: &[usize] = &[0, 1, 2, 3, 4, 5, 6, 7, 8, 10, 11, 12, 13, 14, 15, 17, 18, 19, 27, 28, 29, 30];
+const CORE: &[usize] = &[0, 1, 2, 3, 4, 5, 6, 7, 8, 10, 11, 12, 13, 14, 15, 17, 18, 19, 27, 28, 29, 30, 32, 33];
 
 fn num(v: &V) -> Option<f64> {
     match v {
@@ -197,8 +199,15 @@ fn model_step(t: usize, env: &mut Env) -> Result<(), ()> {
         },
         19 | 20 | 21 | 22 | 23 | 24 | 25 | 31 => Err(()),
         27 => env.get("a").and_then(num).map(|_| ()).ok_or(()),
-        28 => {
+        28 | 32 => {
             if bound(env, "a") {
+                Err(())
+            } else {
+                Ok(())
+            }
+        }
+        33 => {
+            if bound(env, "b") {
                 Err(())
             } else {
                 Ok(())
@@ -234,7 +243,8 @@ fn model_value(t: usize, env_after: &Env, env_before: &Env) -> Option<f64> {
             _ => None,
         },
         27 => env_before.get("a").and_then(num).map(|x| x + 1.0),
-        28 => Some(4.0),
+        28 | 32 => Some(4.0),
+        33 => Some(7.0),
         30 => Some(9.0),
         _ => None,
     }
@@ -297,7 +307,7 @@ impl Check for History {
                     let src = TEMPLATES[ti];
                     let before = env.clone();
                     let want = model_step(ti, &mut env);
-                    if want.is_err() || matches!(ti, 11 | 12 | 27 | 28 | 29 | 30) {
+                    if want.is_err() || matches!(ti, 11 | 12 | 27 | 28 | 29 | 30 | 32 | 33) {
                         nontrivial = true;
                     }
                     verif_hooks::arm();
@@ -435,7 +445,22 @@ fn session_case(tape: &[u16]) -> Case {
                 let n = names[t.pick(names.len())].clone();
                 stmts.push(format!("(({}) => {})(\"param\")", n, n));
             }
-            5 => stmts.push(["sum = 1", "inputs = 2", "constants = 3", "output nope_zz", "[fresh_q = 1, nope_zz]"][t.pick(5)].into()),
+            5 => stmts.push(
+                [
+                    "sum = 1",
+                    "inputs = 2",
+                    "constants = 3",
+                    "output nope_zz",
+                    "[fresh_q = 1, nope_zz]",
+                    "(() => (leak_a = 1) + 1)()",
+                    "{go: () => (leak_b = 2) * 10}.go()",
+                    "do {\n  return leak_c = 5\n}",
+                    "do {\n  // only a comment\n  return (leak_d = 5) + 1\n}",
+                    "[1] via (leak_e => leak_e)",
+                    "map([1], q => (leak_f = q))",
+                ][t.pick(11)]
+                .into(),
+            ),
             _ => {}
         }
     }
